@@ -193,11 +193,27 @@ int sm2_fast_sign(const sm2_z256_t fast_private, SM2_SIGN_PRE_COMP *pre_comp,
 	// r = e + x1 (mod n)
 	sm2_z256_modn_add(r, e, pre_comp->x1_modn);
 
+	// as in sm2_do_sign(), this nonce can not be used if r == 0 or r + k == n
+	if (sm2_z256_is_zero(r)) {
+		error_print();
+		return -1;
+	}
+
 	// s = (k + r) * d' - r
 	sm2_z256_modn_add(s, pre_comp->k, r);
+	if (sm2_z256_is_zero(s)) {
+		error_print();
+		return -1;
+	}
 	sm2_z256_modn_to_mont(s, s);
 	sm2_z256_modn_mont_mul(s, s, fast_private); // mont(s) * d = s * R^-1 * d * R = s * d
 	sm2_z256_modn_sub(s, s, r);
+
+	// or if s == 0
+	if (sm2_z256_is_zero(s)) {
+		error_print();
+		return -1;
+	}
 
 	sm2_z256_to_bytes(r, sig->r);
 	sm2_z256_to_bytes(s, sig->s);
